@@ -264,3 +264,12 @@ M("c03-target-written-into-url", "C03", "httpcore/_models.py",
 M("c09-expiry-none-skips-readability", "C09", A + "http11.py",
   "        now = time.monotonic()\n        keepalive_expired = self._expire_at is not None and now > self._expire_at\n",
   "        if self._expire_at is None:\n            return False\n        now = time.monotonic()\n        keepalive_expired = now > self._expire_at\n", "C09.R4")
+# ---- round 9 (i): flawed fixes ------------------------------------------------------------------------------
+M("c13-headers-flush-only-without-body", "C13", A + "http2.py",
+  "        self._h2_state.increment_flow_control_window(2**24, stream_id=stream_id)\n        await self._write_outgoing_data(request)\n",
+  "        self._h2_state.increment_flow_control_window(2**24, stream_id=stream_id)\n        if end_stream:\n            await self._write_outgoing_data(request)\n", "C13.R9")
+M("c19-host-bracketed-twice", "C19", "httpcore/_models.py", "            header_value = url.host\n",
+  "            header_value = b\"[%b]\" % url.host if b\":\" in url.host else url.host\n", "C19.R10")
+M("c20-backoff-levelled-off", "C20", A + "connection.py", "        yield factor * 2**n", "        yield min(factor * 2**n, 5.0)", "C20.R4")
+M("c17-wrap-only-plain-streams", "C17", A + "http11.py", "                network_stream = AsyncHTTP11UpgradeStream(network_stream, trailing_data)",
+  "                if not isinstance(network_stream, AsyncHTTP11UpgradeStream):\n                    network_stream = AsyncHTTP11UpgradeStream(network_stream, trailing_data)", "C17.R2")
